@@ -215,11 +215,21 @@ Mutate(e) ==
       c01 == IF e.panic \/ SafeAllows(safe[h], e.op, SubjectOf(e), alive) THEN {}
              ELSE {F(e, "C01", "a vertex disappeared that a GC-safe system keeps")}
       \* ---- C02: alive set equals the reference, no panic
+      \* an inconsistent observation (kid() contradicts kids(), keys() not ascending, len() wrong ...) is a C03 matter
       aliveok == ~e.panic /\ ~Broken(o) /\ AliveOk(o, g2)
-      c02 == IF div \/ aliveok THEN {}
-             ELSE {F(e, "C02", IF e.panic THEN "panic within the limits" ELSE "alive set differs from the reference model")}
-      c06 == IF div \/ aliveok \/ ncoll = 0 THEN {}
-             ELSE {F(e, "C06", "after earlier collections: panic or alive set differs")}
+      groupsok == e.panic \/ Broken(o) \/ e.op # "bind" \/ ObsGroups(o) = g2.groups
+      c02 == (IF div \/ aliveok \/ (~e.panic /\ Broken(o)) THEN {}
+              ELSE {F(e, "C02", IF e.panic THEN "panic within the limits" ELSE "alive set differs from the reference model")})
+             \cup (IF div \/ groupsok THEN {}
+                   ELSE {F(e, "C02", "bind: the group partition is not the one the joining rules give (hook)")})
+      \* C06: a bind of two ungrouped vertices with fewer than MaxGroups groups alive must form a group (hook), whatever
+      \* lived and died before; and once groups have been collected, nothing may panic or survive/die wrongly
+      formsok == e.panic \/ Broken(o) \/ e.op # "bind" \/ GroupOf(g, e.v1) # {} \/ GroupOf(g, e.v2) # {}
+                 \/ \E G \in ObsGroups(o) : e.v1 \in G /\ e.v2 \in G
+      c06 == (IF div \/ formsok THEN {} ELSE {F(e, "C06", "binding two ungrouped vertices did not form a group although fewer than 14 are alive")})
+             \cup (IF div \/ aliveok \/ (~e.panic /\ Broken(o)) \/ ncoll = 0 THEN {}
+                   ELSE {F(e, "C06", "after earlier collections: panic or alive set differs")})
+      brk == IF div \/ e.panic \/ ~Broken(o) THEN {} ELSE {F(e, "C03", "inconsistent answers: " \o o.broken)}
       judge == ~div /\ aliveok
       \* ---- C03
       c03 == IF ~judge THEN {}
@@ -246,7 +256,7 @@ Mutate(e) ==
       mir == IF e.panic THEN {} ELSE MirrorFails(e, o)
   IN
   [Cur EXCEPT
-     !.fails = fails \cup c01 \cup c02 \cup c06 \cup c03 \cup c04 \cup c05 \cup c19 \cup lat \cup c10 \cup c07 \cup mir,
+     !.fails = fails \cup c01 \cup c02 \cup c06 \cup c03 \cup brk \cup c04 \cup c05 \cup c19 \cup lat \cup c10 \cup c07 \cup mir,
      !.div = (div \/ ~aliveok),
      !.gs = [gs EXCEPT ![h] = g2],
      !.safe = [safe EXCEPT ![h] = SafeSettle(SafePost(e, @), alive)],
